@@ -1,9 +1,14 @@
 package checks
 
 import (
+	"bytes"
 	"fmt"
+	"os"
+	"runtime"
 	"sort"
+	"strconv"
 	"strings"
+	"time"
 
 	"verif/harness/xplore"
 )
@@ -32,6 +37,8 @@ const (
 	opOnce
 	opOnceWait
 	opAtomic
+	opWGWait
+	opCondWait
 )
 
 type schedOp struct {
@@ -57,6 +64,7 @@ func (v vclock) covers(t, c int) bool { return t < len(v) && c <= v[t] }
 
 type sthread struct {
 	id      int
+	goid    uint64
 	resume  chan struct{}
 	pending *schedOp
 	done    bool
@@ -76,6 +84,20 @@ type onceState struct {
 	runner int
 	vc     vclock
 }
+
+type wgState struct {
+	count int
+	vc    vclock
+}
+
+type condState struct {
+	waiters   []int
+	signalled map[int]bool
+	vc        vclock
+}
+
+// maxDyn bounds the goroutines one execution may start (vector-clock width).
+const maxDyn = 48
 
 type accessRec struct {
 	t     int
@@ -105,6 +127,16 @@ type sched struct {
 	promoted map[string]bool // sites found shared during this execution
 	deadlock string
 	points   int
+	// goroutines the library itself starts (go statements of the instrumented
+	// packages arrive through verifrt.Go): scheduled like the bodies, ids
+	// after the pseudo-thread's
+	dyn        []*sthread
+	nbodies    int
+	spawnFn    func(id int, vc vclock, b func() string) *sthread
+	wgs        map[uintptr]*wgState
+	conds      map[uintptr]*condState
+	unmodelled string // set when an execution leaves what the scheduler models
+	timer      *time.Timer
 	// epilogue: run alone after every body has finished (its effects
 	// happen-after all of them): "the node is still usable afterwards"
 	epilogue       func() string
@@ -113,6 +145,73 @@ type sched struct {
 }
 
 var curSched *sched
+
+// schedLight: the overlay is the degraded one (real sync primitives, go
+// statements left alone): scheduling points are block loads / writes only.
+var schedLight = os.Getenv("VERIF_INSTR") != "" && os.Getenv("VERIF_INSTR") != "full"
+
+// schedGaveUp: a thread once blocked where the scheduler cannot see it; no
+// further schedule exploration in this process (every later execution would
+// wait for the same timeout).
+var schedGaveUp string
+
+// curGoid: id of the calling goroutine (from the first line of its stack).
+func curGoid() uint64 {
+	var buf [64]byte
+	b := buf[:runtime.Stack(buf[:], false)]
+	b = bytes.TrimPrefix(b, []byte("goroutine "))
+	if i := bytes.IndexByte(b, ' '); i > 0 {
+		n, _ := strconv.ParseUint(string(b[:i]), 10, 64)
+		return n
+	}
+	return 0
+}
+
+// await waits for the running thread's next yield. A thread that does not
+// come back within the patience blocked on something the scheduler does not
+// model (a real lock of the light overlay held across a scheduling point, a
+// primitive inside another module): the execution is abandoned and not judged.
+func (s *sched) await() bool {
+	patience := 30 * time.Second
+	if schedLight {
+		patience = 5 * time.Second
+	}
+	if s.timer == nil {
+		s.timer = time.NewTimer(patience)
+	} else {
+		s.timer.Reset(patience)
+	}
+	select {
+	case <-s.yield:
+		if !s.timer.Stop() {
+			select {
+			case <-s.timer.C:
+			default:
+			}
+		}
+		return true
+	case <-s.timer.C:
+		s.unmodelled = "a thread blocked where the scheduler cannot see it (waiting outside the modelled primitives)"
+		schedGaveUp = s.unmodelled
+		return false
+	}
+}
+
+// schedCapRun, when set by a check's runner, receives a note whenever an
+// execution left what the scheduler models (its oracles are then skipped and
+// the run is not reported as exhaustive).
+var schedCapRun func(what string)
+
+// outside reports (and records) that this execution is not to be judged.
+func (s *sched) outside() bool {
+	if s.unmodelled == "" {
+		return false
+	}
+	if schedCapRun != nil {
+		schedCapRun("execution outside the scheduler's model, not judged: " + s.unmodelled)
+	}
+	return true
+}
 
 // nclock is the vector-clock width: one slot per body plus the prelude's.
 func (s *sched) nclock() int {
@@ -124,12 +223,19 @@ func (s *sched) nclock() int {
 
 func newSched(x *xplore.Ctx, shared map[string]bool) *sched {
 	return &sched{x: x, yield: make(chan *sthread), locks: map[uintptr]*lockState{}, onces: map[uintptr]*onceState{},
-		atomics: map[uintptr]vclock{}, addrs: map[uintptr]*addrState{}, shared: shared, races: map[string]string{}, promoted: map[string]bool{}}
+		atomics: map[uintptr]vclock{}, addrs: map[uintptr]*addrState{}, shared: shared, races: map[string]string{}, promoted: map[string]bool{},
+		wgs: map[uintptr]*wgState{}, conds: map[uintptr]*condState{}}
 }
 
 // point parks the running thread with its pending operation.
 func (s *sched) point(o *schedOp) {
 	t := s.cur
+	if schedLight && t.goid != curGoid() {
+		// a goroutine the library started itself (the light overlay leaves go
+		// statements alone): not a thread of this scheduler, runs free
+		s.unmodelled = "the library runs goroutines of its own and the build is not fully instrumented"
+		return
+	}
 	t.pending = o
 	s.yield <- t
 	<-t.resume
@@ -257,6 +363,55 @@ func (s *sched) syncEvent(kind int, addr uintptr) int {
 		o.state = 2
 		o.vc.join(t.vc)
 		t.vc[t.id]++
+	case evTryLock:
+		s.point(&schedOp{kind: opAtomic, addr: addr, site: "TryLock"})
+		l := s.lock(addr)
+		if l.writer != -1 || len(l.readers) > 0 {
+			return 0
+		}
+		l.writer = t.id
+		t.vc.join(l.vc)
+		return 1
+	case evTryRLock:
+		s.point(&schedOp{kind: opAtomic, addr: addr, site: "TryRLock"})
+		l := s.lock(addr)
+		if l.writer != -1 {
+			return 0
+		}
+		l.readers[t.id] = true
+		t.vc.join(l.vc)
+		return 1
+	case evWGAdd:
+		s.wg(addr).count++
+	case evWGDone:
+		s.point(&schedOp{kind: opAtomic, addr: addr, site: "WaitGroup.Done"})
+		w := s.wg(addr)
+		w.count--
+		w.vc.join(t.vc)
+		t.vc[t.id]++
+	case evWGWait:
+		s.point(&schedOp{kind: opWGWait, addr: addr, site: "WaitGroup.Wait"})
+		t.vc.join(s.wg(addr).vc)
+	case evCondEnq:
+		c := s.cond(addr)
+		c.waiters = append(c.waiters, t.id)
+	case evCondWait:
+		s.point(&schedOp{kind: opCondWait, addr: addr, site: "Cond.Wait"})
+		c := s.cond(addr)
+		delete(c.signalled, t.id)
+		t.vc.join(c.vc)
+	case evCondSignal, evCondBcast:
+		s.point(&schedOp{kind: opAtomic, addr: addr, site: "Cond.Signal"})
+		c := s.cond(addr)
+		for len(c.waiters) > 0 {
+			c.signalled[c.waiters[0]] = true
+			c.waiters = c.waiters[1:]
+			if kind == evCondSignal {
+				break
+			}
+		}
+		c.vc.join(t.vc)
+		t.vc[t.id]++
 	case evAtomicLoad, evAtomicStore, evAtomicRMW:
 		s.point(&schedOp{kind: opAtomic, addr: addr, site: "atomic"})
 		v := s.atomics[addr]
@@ -275,6 +430,80 @@ func (s *sched) syncEvent(kind int, addr uintptr) int {
 	return 0
 }
 
+func (s *sched) wg(addr uintptr) *wgState {
+	w := s.wgs[addr]
+	if w == nil {
+		w = &wgState{vc: make(vclock, s.nclock())}
+		s.wgs[addr] = w
+	}
+	return w
+}
+
+func (s *sched) cond(addr uintptr) *condState {
+	c := s.conds[addr]
+	if c == nil {
+		c = &condState{signalled: map[int]bool{}, vc: make(vclock, s.nclock())}
+		s.conds[addr] = c
+	}
+	return c
+}
+
+// spawnChild starts f as a thread of its own: what the running thread did so
+// far happens-before it. Not a scheduling point by itself (the child's start
+// is one).
+func (s *sched) spawnChild(f func()) {
+	p := s.cur
+	if p == nil || s.spawnFn == nil || len(s.dyn) >= maxDyn {
+		if p != nil && s.unmodelled == "" {
+			s.unmodelled = fmt.Sprintf("more than %d goroutines started in one execution", maxDyn)
+		}
+		f() // inline: an unmanaged goroutine would call the hooks under the spawner's identity
+		return
+	}
+	id := s.nbodies + 1 + len(s.dyn)
+	vc := p.vc.copy()
+	vc[id] = 1
+	p.vc[p.id]++
+	s.dyn = append(s.dyn, s.spawnFn(id, vc, func() string { f(); return "" }))
+}
+
+// all: the bodies (or the pseudo-thread running alone) and every live
+// goroutine the library started.
+func (s *sched) all() []*sthread {
+	return append(append([]*sthread{}, s.threads...), s.dyn...)
+}
+
+// runAlone drives pseudo-thread pt (prelude / epilogue) and whatever goroutines
+// the library starts meanwhile, deterministically (first enabled thread),
+// until pt has returned and the goroutines are done or blocked. Returns what
+// pt is blocked at, "" when it returned.
+func (s *sched) runAlone(pt *sthread) string {
+	for {
+		var pick *sthread
+		for _, t := range append([]*sthread{pt}, s.dyn...) {
+			if t != nil && !t.done && s.enabled(t) {
+				pick = t
+				break
+			}
+		}
+		if pick == nil {
+			if !pt.done {
+				return pt.pending.site
+			}
+			return ""
+		}
+		s.cur = pick
+		pick.resume <- struct{}{}
+		if !s.await() {
+			return ""
+		}
+		s.cur = nil
+		if pick != pt && pick.done && pick.panicv != nil && s.deadlock == "" {
+			s.deadlock = fmt.Sprintf("a goroutine started by the library panicked: %v", pick.panicv)
+		}
+	}
+}
+
 func (s *sched) enabled(t *sthread) bool {
 	if t.done || t.pending == nil {
 		return !t.done
@@ -288,6 +517,10 @@ func (s *sched) enabled(t *sthread) bool {
 	case opOnceWait:
 		o := s.onces[t.pending.addr]
 		return o != nil && o.state == 2
+	case opWGWait:
+		return s.wg(t.pending.addr).count <= 0
+	case opCondWait:
+		return s.cond(t.pending.addr).signalled[t.id]
 	}
 	return true
 }
@@ -300,6 +533,7 @@ func (s *sched) run(prelude func(), bodies []func() string) {
 	spawn := func(id int, vc vclock, b func() string) *sthread {
 		t := &sthread{id: id, resume: make(chan struct{}), vc: vc, pending: &schedOp{kind: opStart, site: "start"}}
 		go func() {
+			t.goid = curGoid()
 			<-t.resume
 			func() {
 				defer func() {
@@ -315,30 +549,29 @@ func (s *sched) run(prelude func(), bodies []func() string) {
 		}()
 		return t
 	}
-	base := make(vclock, n+1)
+	s.nbodies = n
+	s.spawnFn = spawn
+	width := n + 1 + maxDyn
+	base := make(vclock, width)
 	if prelude != nil {
-		pv := make(vclock, n+1)
+		pv := make(vclock, width)
 		pv[n] = 1
 		pt := spawn(n, pv, func() string { prelude(); return "" })
-		// threads slice must be sized for lock/once clocks
-		s.threads = make([]*sthread, n+1)
-		s.threads[n] = pt
-		for !pt.done {
-			if !s.enabled(pt) {
-				s.deadlock = "prelude blocked at " + pt.pending.site
-				return
-			}
-			s.cur = pt
-			pt.resume <- struct{}{}
-			<-s.yield
+		if at := s.runAlone(pt); at != "" {
+			s.deadlock = "prelude blocked at " + at
+			return
 		}
-		s.cur = nil
+		if s.unmodelled != "" {
+			return
+		}
 		if pt.panicv != nil {
 			s.deadlock = fmt.Sprintf("prelude panicked: %v", pt.panicv)
 			return
 		}
+		if s.deadlock != "" {
+			return
+		}
 		base = pt.vc.copy()
-		s.threads = s.threads[:0]
 	}
 	s.threads = nil
 	for i, b := range bodies {
@@ -346,20 +579,23 @@ func (s *sched) run(prelude func(), bodies []func() string) {
 		vc[i] = 1
 		s.threads = append(s.threads, spawn(i, vc, b))
 	}
-	last := -1
+	var last *sthread
 	for {
 		var en []*sthread
 		runningEnabled := false
-		if last >= 0 && s.enabled(s.threads[last]) {
-			en = append(en, s.threads[last])
+		if last != nil && s.enabled(last) {
+			en = append(en, last)
 			runningEnabled = true
 		}
-		unfinished := 0
-		for _, t := range s.threads {
+		unfinished, bodiesLeft := 0, 0
+		for _, t := range s.all() {
 			if !t.done {
 				unfinished++
+				if t.id < n {
+					bodiesLeft++
+				}
 			}
-			if t.id != last && s.enabled(t) {
+			if t != last && s.enabled(t) {
 				en = append(en, t)
 			}
 		}
@@ -367,8 +603,13 @@ func (s *sched) run(prelude func(), bodies []func() string) {
 			break
 		}
 		if len(en) == 0 {
+			if bodiesLeft == 0 {
+				// only goroutines of the library are left, blocked for good: a
+				// leak, not something the callers wait for
+				break
+			}
 			var w []string
-			for _, t := range s.threads {
+			for _, t := range s.all() {
 				if !t.done {
 					w = append(w, fmt.Sprintf("T%d waits at %s", t.id, t.pending.site))
 				}
@@ -396,30 +637,28 @@ func (s *sched) run(prelude func(), bodies []func() string) {
 		s.points++
 		t := en[idx]
 		s.cur = t
-		last = t.id
+		last = t
 		t.resume <- struct{}{}
-		<-s.yield
+		if !s.await() {
+			return
+		}
+		if t.id > n && t.done && t.panicv != nil && s.deadlock == "" {
+			s.deadlock = fmt.Sprintf("a goroutine started by the library panicked: %v", t.panicv)
+			break
+		}
 	}
 	s.cur = nil
-	if s.epilogue != nil && s.deadlock == "" {
-		ev := make(vclock, n+1)
-		for _, t := range s.threads {
+	if s.epilogue != nil && s.deadlock == "" && s.unmodelled == "" {
+		ev := make(vclock, width)
+		for _, t := range s.all() {
 			ev.join(t.vc)
 		}
 		ev[n]++
 		et := spawn(n, ev, s.epilogue)
-		s.threads = append(s.threads, et)
-		for !et.done {
-			if !s.enabled(et) {
-				s.deadlock = "every thread has returned, yet a later call on the node blocks at " + et.pending.site + " (a lock was left held)"
-				break
-			}
-			s.cur = et
-			et.resume <- struct{}{}
-			<-s.yield
+		if at := s.runAlone(et); at != "" {
+			s.deadlock = "every thread has returned, yet a later call on the node blocks at " + at + " (a lock was left held)"
 		}
 		s.cur = nil
-		s.threads = s.threads[:n]
 		if et.done {
 			s.epilogueRan = true
 			if et.panicv != nil {
@@ -435,6 +674,10 @@ func (s *sched) run(prelude func(), bodies []func() string) {
 // attached; loadPoint is called by the storage seam for every block load.
 func runScheduled(x *xplore.Ctx, shared map[string]bool, prelude func(), bodies []func() string, epilogue ...func() string) *sched {
 	s := newSched(x, shared)
+	if schedGaveUp != "" {
+		s.unmodelled = schedGaveUp
+		return s
+	}
 	if len(epilogue) > 0 {
 		s.epilogue = epilogue[0]
 	}
@@ -449,15 +692,23 @@ func runScheduled(x *xplore.Ctx, shared map[string]bool, prelude func(), bodies 
 			return cs.syncEvent(kind, addr)
 		}
 		// outside a scheduled thread (harness set-up code): uncontended
-		if kind == evOnceEnter {
+		if kind == evOnceEnter || kind == evTryLock || kind == evTryRLock {
 			return 1
 		}
 		return 0
+	})
+	setSpawnHook(func(f func()) {
+		if cs := curSched; cs != nil && cs.cur != nil {
+			cs.spawnChild(f)
+			return
+		}
+		go f()
 	})
 	defer func() {
 		curSched = nil
 		setFieldHook(nil)
 		setSyncHook(nil)
+		setSpawnHook(nil)
 	}()
 	s.run(prelude, bodies)
 	return s
@@ -476,4 +727,13 @@ func sortedRaceList(m map[string]string) []string {
 	}
 	sort.Strings(out)
 	return out
+}
+
+// noteDegraded: with the light overlay (real sync, no field hooks, go
+// statements left alone) schedule exploration and map-order ownership are
+// partial; the run is then not reported as exhaustive.
+func noteDegraded(r interface{ Cap(string) }) {
+	if schedLight {
+		r.Cap("instrumentation degraded (light overlay): schedule points at storage operations only, no race oracle")
+	}
 }
